@@ -2,6 +2,7 @@ package main
 
 import (
 	"fmt"
+	"os"
 	"go/types"
 	"sort"
 	"strings"
@@ -97,7 +98,10 @@ type HarnessStats struct {
 	KnownHits   []string
 	IfConverted int
 	SpecAborts  int
+	Sites       map[string]int
 }
+
+var siteStats = os.Getenv("VSYM_SITES") != ""
 
 func newHarnessStats(name string) *HarnessStats {
 	return &HarnessStats{Name: name, Outside: map[string]int{}, Unsupported: map[string]int{}, Reach: map[string]int{},
@@ -115,6 +119,12 @@ func (h *HarnessStats) merge(o *HarnessStats) {
 	h.UnknownObl += o.UnknownObl
 	h.Steps += o.Steps
 	h.Wall += o.Wall
+	for k, v := range o.Sites {
+		if h.Sites == nil {
+			h.Sites = map[string]int{}
+		}
+		h.Sites[k] += v
+	}
 	h.IfConverted += o.IfConverted
 	h.SpecAborts += o.SpecAborts
 	h.ArithUsed = h.ArithUsed || o.ArithUsed
@@ -168,6 +178,7 @@ type Engine struct {
 	specDepth    int
 	specLimit    int64
 	noIfConv     bool
+	noRetMerge   bool
 	fmtSeq       int
 	crashWhere   string
 	roCells      map[*value]bool
@@ -335,6 +346,19 @@ func (e *Engine) branch(cond *Term, site string) bool {
 		e.pending = append(e.pending, workItem{prefix: np, model: m})
 	} else {
 		e.stats.Infeasible++
+		if siteStats {
+			w := e.where()
+			if i := strings.Index(w, " <- "); i > 0 {
+				j := strings.Index(w[i+4:], " <- ")
+				if j > 0 {
+					w = w[:i+4+j]
+				}
+			}
+			if e.stats.Sites == nil {
+				e.stats.Sites = map[string]int{}
+			}
+			e.stats.Sites[site+" "+w]++
+		}
 	}
 	e.trace = append(e.trace, Decision{Kind: "br", Val: b2i(taken)})
 	if taken {
